@@ -886,4 +886,4 @@ LEVEL_NOTE = (
     "Trusted: CPython's parser (which line a planted operator fault is reported on), the planter's marks in the fault table, html.unescape and "
     "the pygments markup for the html page. Columns of control lines accept line start or '%'. Unclosed tags at end of input: class/filename/source only."
 )
-READY = False
+READY = True
